@@ -585,6 +585,63 @@ theorem flowEdges_eq_edges (cfg : Cfg) (h : ∀ k, k ∈ cfg.conns → k.sel = n
   rw [h k hk]
   exact Or.inr rfl
 
+/-! ## the driver's property oracles are sound -/
+
+/-- **check soundness**: the three oracles the driver evaluates on the implementation's observations are computed with
+model functions whose meaning is fixed by the theorems above, stated here on the configuration alone:
+* routing — whatever `deliver` over `flowEdges` returns, with any fuel, is duplicate-free and consists exactly of the
+  configured routes whose connector hops are selected;
+* sharing — the component nodes are exactly: receivers / exporters per (signal, non-connector id listed by a pipeline of
+  that signal), processors per (pipeline, listed id), connectors per supported signal pair used on both sides;
+* rejection — the connector error iff some use is unsupported, the cycle error iff all uses are supported and the
+  connector usage is cyclic, acceptance iff neither. -/
+theorem C09_check_sound (cfg : Cfg) (wf : cfg.WF) :
+    (∀ k s r ws, deliver (succOf (flowEdges cfg)) k (Node.recv s r) = some ws →
+      ws.Nodup ∧ ∀ w, w ∈ ws ↔ (CfgRoute cfg s r w ∧ PairsOk (flowAllowed cfg) (Node.recv s r) w)) ∧
+    (∀ n, n ∈ (nodes cfg).filter Node.isComp ↔
+      ((∃ s r, n = Node.recv s r ∧ ∃ p, p ∈ cfg.pipes ∧ p.id.sig = s ∧ r ∈ p.recv ∧ cfg.isConn r = false) ∨
+       (∃ s e, n = Node.exp s e ∧ ∃ p, p ∈ cfg.pipes ∧ p.id.sig = s ∧ e ∈ p.exps ∧ cfg.isConn e = false) ∨
+       (∃ pid x, n = Node.proc pid x ∧ ∃ p, p ∈ cfg.pipes ∧ p.id = pid ∧ x ∈ p.procs) ∨
+       (∃ es rs c, n = Node.conn es rs c ∧ cfg.isConn c = true ∧ cfg.supp c es rs = true ∧
+          (∃ p, p ∈ cfg.pipes ∧ p.id.sig = es ∧ c ∈ p.exps) ∧ (∃ q, q ∈ cfg.pipes ∧ q.id.sig = rs ∧ c ∈ q.recv)))) ∧
+    (build cfg = some .connector ↔ UnsupportedUse cfg) ∧
+    (build cfg = some .cycle ↔ (¬ UnsupportedUse cfg ∧ ConnectorCycle cfg)) ∧
+    (build cfg = none ↔ (¬ UnsupportedUse cfg ∧ ¬ ConnectorCycle cfg)) := by
+  refine ⟨?_, ?_, C09_unsupported cfg, C09_cycle_iff cfg wf, ?_⟩
+  · intro k s r ws h
+    have hspec := deliver_spec (flowEdges cfg) k _ ws h
+    refine ⟨hspec.1, fun w => ?_⟩
+    rw [hspec.2 w]
+    simp only [flowEdges]
+    rw [isRouteWalk_filter, C09_routing cfg wf s r w]
+  · intro n
+    simp only [List.mem_filter]
+    cases n with
+    | recv s r =>
+      rw [C09_sharing_receivers]
+      simp only [Node.isComp, and_true, Node.recv.injEq, reduceCtorEq, false_and, exists_false, or_false]
+      exact ⟨fun h => ⟨s, r, ⟨rfl, rfl⟩, h⟩, fun ⟨_, _, ⟨h1, h2⟩, h⟩ => by subst h1; subst h2; exact h⟩
+    | exp s e =>
+      rw [C09_sharing_exporters]
+      simp only [Node.isComp, and_true, Node.exp.injEq, reduceCtorEq, false_and, exists_false, or_false, false_or]
+      exact ⟨fun h => ⟨s, e, ⟨rfl, rfl⟩, h⟩, fun ⟨_, _, ⟨h1, h2⟩, h⟩ => by subst h1; subst h2; exact h⟩
+    | proc pid x =>
+      rw [C09_sharing_processors]
+      simp only [Node.isComp, and_true, Node.proc.injEq, reduceCtorEq, false_and, exists_false, or_false, false_or]
+      exact ⟨fun h => ⟨pid, x, ⟨rfl, rfl⟩, h⟩, fun ⟨_, _, ⟨h1, h2⟩, h⟩ => by subst h1; subst h2; exact h⟩
+    | conn es rs c =>
+      rw [C09_sharing_connectors]
+      simp only [Node.isComp, and_true, Node.conn.injEq, reduceCtorEq, false_and, exists_false, or_false, false_or]
+      exact ⟨fun h => ⟨es, rs, c, ⟨rfl, rfl, rfl⟩, h⟩, fun ⟨_, _, _, ⟨h1, h2, h3⟩, h⟩ => by subst h1; subst h2; subst h3; exact h⟩
+    | cap p => simp [Node.isComp]
+    | fanout p => simp [Node.isComp]
+  · constructor
+    · intro hb
+      obtain ⟨_, hc, hu⟩ := C09_accepted_acyclic cfg hb
+      exact ⟨hu, hc⟩
+    · rintro ⟨hu, hc⟩
+      exact C09_accepts_valid cfg wf hu hc
+
 /-! ## validation -/
 
 theorem nodup_of_hasDup_false : ∀ l : List CompId, hasDup l = false → l.Nodup := by
